@@ -20,7 +20,10 @@
 //	G2 the time grammars (UTCTime 6x12x6x4x13 and GeneralizedTime 9x12x6x5x13 field
 //	   combinations) under both time tags,
 //	G3 explicit-tag wrappers around the inner elements for the Optional readers,
-//	B  the Add* builders over the same value alphabets.
+//	B  the Add* builders over the same value alphabets; the two time builders also
+//	   over 8 zones x year boundaries {0,1,1950,2000,2050,9999,10000} (UTC and
+//	   local midnight) +-{0,1s,30min,1h,offset,offset+-1s} (read-back instant and
+//	   agreement with encoding/asn1's marshaller).
 //
 // Oracle: verif/ref/derref (X.690 grammar) decides acceptance and the value;
 // encoding/asn1 is consulted only when cryptobyte accepts: if it accepts too, the
@@ -1477,7 +1480,99 @@ func (k *checker) stdAgree(name string, enc []byte, ptr any, want any, detail st
 	}
 }
 
+// timeBuilders exercises AddASN1UTCTime / AddASN1GeneralizedTime with times in seven
+// zones around the year boundaries. Oracle (no more than the property and the two
+// libraries' documentation): (a) an emitted element must be read back by the
+// cryptobyte reader and by encoding/asn1 to the same instant; (b) the builder emits
+// exactly when encoding/asn1's marshaller emits the same type for the same value
+// (UTCTime: calendar year of the time in its own zone within 1950..2049 - outside
+// encoding/asn1 switches to GeneralizedTime; GeneralizedTime: year 0..9999), and then
+// the bytes are identical.
+func (k *checker) timeBuilders() {
+	c := k.c
+	zones := []*time.Location{time.UTC, time.FixedZone("", 3600), time.FixedZone("", -3600), time.FixedZone("", 14*3600), time.FixedZone("", -12*3600),
+		time.FixedZone("", 5*3600+45*60), time.FixedZone("CET", 3600), time.FixedZone("NST", -(3*3600 + 30*60))}
+	var instants []time.Time
+	for _, z := range zones {
+		_, off := time.Date(2000, 1, 1, 0, 0, 0, 0, z).Zone()
+		if off < 0 {
+			off = -off
+		}
+		var deltas []time.Duration
+		for _, d := range []int{0, 1, 1800, 3600, off, off + 1, off - 1} {
+			deltas = append(deltas, time.Duration(d)*time.Second, -time.Duration(d)*time.Second)
+		}
+		for _, y := range []int{0, 1, 1950, 2000, 2050, 9999, 10000} {
+			for _, base := range []time.Time{time.Date(y, 1, 1, 0, 0, 0, 0, time.UTC), time.Date(y, 1, 1, 0, 0, 0, 0, z)} {
+				for _, d := range deltas {
+					instants = append(instants, base.Add(d).In(z))
+				}
+			}
+		}
+		for _, o := range []time.Time{time.Date(1970, 1, 1, 0, 0, 0, 0, time.UTC), time.Date(1999, 12, 31, 23, 59, 59, 0, time.UTC),
+			time.Date(2024, 2, 29, 12, 0, 0, 0, time.UTC), time.Date(2038, 1, 19, 3, 14, 7, 0, time.UTC), time.Date(1969, 7, 20, 20, 17, 40, 0, time.UTC)} {
+			instants = append(instants, o.In(z))
+		}
+	}
+	type kind struct {
+		name   string
+		tag    byte
+		params string
+		add    func(b *cryptobyte.Builder, t time.Time)
+		read   func(s *cryptobyte.String, out *time.Time) bool
+	}
+	kinds := []kind{
+		{"AddASN1UTCTime", 0x17, "utc", func(b *cryptobyte.Builder, t time.Time) { b.AddASN1UTCTime(t) }, func(s *cryptobyte.String, out *time.Time) bool { return s.ReadASN1UTCTime(out) }},
+		{"AddASN1GeneralizedTime", 0x18, "generalized", func(b *cryptobyte.Builder, t time.Time) { b.AddASN1GeneralizedTime(t) }, func(s *cryptobyte.String, out *time.Time) bool { return s.ReadASN1GeneralizedTime(out) }},
+	}
+	n := 0
+	for _, t := range instants {
+		t := t
+		_, off := t.Zone()
+		d := fmt.Sprintf("%s (zone offset %ds)", t.Format("2006-01-02T15:04:05Z07:00"), off)
+		for _, kd := range kinds {
+			var b cryptobyte.Builder
+			var out []byte
+			var err error
+			if p, v, _ := vf.Protect(func() { kd.add(&b, t); out, err = b.Bytes() }); p {
+				c.Violation(kd.name+" panics", map[string]any{"value": d, "panic": fmt.Sprint(v)})
+				continue
+			}
+			c.Eval(1)
+			n++
+			std, serr := encoding_asn1.MarshalWithParams(t, kd.params)
+			stdEmits := serr == nil && len(std) > 0 && std[0] == kd.tag
+			c.Nontrivial(fmt.Sprintf("%s|zone%d|emits=%v", kd.name, off, err == nil))
+			if err == nil {
+				var back time.Time
+				s := cryptobyte.String(out)
+				if !kd.read(&s, &back) || !s.Empty() {
+					c.Violation(kd.name+" emits an element its own reader rejects", map[string]any{"value": d, "output": hexN(out)})
+				} else if !back.Equal(t) {
+					c.Violation(kd.name+" output reads back as a different instant", map[string]any{"value": d, "output": hexN(out), "read_back": back.Format(time.RFC3339)})
+				}
+				var sb time.Time
+				if rest, uerr := encoding_asn1.Unmarshal(out, &sb); uerr != nil || len(rest) != 0 {
+					c.Violation(kd.name+" output is rejected by encoding/asn1", map[string]any{"value": d, "output": hexN(out), "err": fmt.Sprint(uerr)})
+				} else if !sb.Equal(t) {
+					c.Violation(kd.name+" output decodes to a different instant in encoding/asn1", map[string]any{"value": d, "output": hexN(out), "decoded": sb.Format(time.RFC3339)})
+				}
+			}
+			switch {
+			case err == nil && !stdEmits:
+				c.Violation(kd.name+" encodes a time for which encoding/asn1 does not emit this type", map[string]any{"value": d, "output": hexN(out), "encoding/asn1": hexN(std), "err": fmt.Sprint(serr)})
+			case err != nil && stdEmits:
+				c.Violation(kd.name+" refuses a time that encoding/asn1 encodes as this type", map[string]any{"value": d, "err": err.Error(), "encoding/asn1": hexN(std)})
+			case err == nil && !bytes.Equal(out, std):
+				c.Violation(kd.name+" output differs from encoding/asn1's for the same time", map[string]any{"value": d, "output": hexN(out), "encoding/asn1": hexN(std)})
+			}
+		}
+	}
+	c.Set("time_builder_grid", map[string]any{"zones": len(zones), "instants": len(instants), "builder_calls": n})
+}
+
 func (k *checker) builders() {
+	k.timeBuilders()
 	c := k.c
 	// integers: +-(2^bits) + {-2..2}
 	var vals []*big.Int
@@ -1587,7 +1682,7 @@ func (k *checker) builders() {
 			}
 		}
 	}
-	// times (UTC; a time in another zone has no DER form and is not claimed)
+	// times in UTC against the reference DER strings (other zones: timeBuilders)
 	two := func(v int) string { return fmt.Sprintf("%02d", v) }
 	for _, y := range []int{-1, 0, 1, 999, 1949, 1950, 1969, 1970, 1999, 2000, 2024, 2049, 2050, 2051, 9999, 10000} {
 		for _, md := range [][2]int{{1, 1}, {2, 28}, {2, 29}, {12, 31}, {6, 30}} {
